@@ -762,7 +762,7 @@ func randWorkflow(r *lib.Rng, tier string) *Case {
 var wfInj = []string{"input-unknown-from", "dup-input", "whole-twice", "field-twice", "branch-unknown-end", "branch-one",
 	"branch-unknown-start", "cycle", "no-end", "no-start", "addend-dup-target", "addend", "reserved", "dup-node", "need-state",
 	"trigger-opt", "maxsteps", "early-compile", "input-from-end", "input-to-start-key", "two-failing-nodes",
-	"static-after-compile", "static-conflict", "static-on-end"}
+	"static-after-compile", "static-conflict", "static-on-end", "whole-after-field", "dup-data-edge", "dup-ctrl-edge", "field-dup-in-call"}
 
 func injectWorkflow(r *lib.Rng, c *Case, keys []string) {
 	kind := wfInj[r.Intn(len(wfInj))]
@@ -819,6 +819,44 @@ func injectWorkflow(r *lib.Rng, c *Case, keys []string) {
 		t := withEnd(keys)[r.Intn(n+1)]
 		insInput(Call{Op: "addinput", To: t, From: any(), In: "normal", Fields: []string{"A"}})
 		insInput(Call{Op: "addinput", To: t, From: "start", In: "normal", Fields: []string{"A"}})
+	case "whole-after-field":
+		// a fresh node, so that the overlap is the only thing wrong with it: one field, then the whole input (or the reverse)
+		calls := []Call{{Op: "addnode", Key: "ov", Kind: "lambda"},
+			{Op: "addinput", To: "ov", From: "start", In: []string{"normal", "nodirect"}[r.Intn(2)], Fields: []string{[]string{"A", "B"}[r.Intn(2)]}},
+			{Op: "addinput", To: "ov", From: any(), In: "normal"}}
+		if r.Chance(1, 3) {
+			calls[1], calls[2] = calls[2], calls[1]
+		}
+		p := r.Range(0, firstCompile(c.Calls))
+		for j := len(calls) - 1; j >= 0; j-- {
+			c.Calls = insertAt(c.Calls, p, calls[j])
+		}
+	case "dup-data-edge", "dup-ctrl-edge":
+		// a fresh node that declares the same predecessor twice, with mapping targets that do not overlap
+		from := []string{"start", any()}[r.Intn(2)]
+		k1, k2 := "nodirect", []string{"nodirect", "normal"}[r.Intn(2)]
+		f2 := []string{"B"}
+		if kind == "dup-ctrl-edge" {
+			k1, k2, f2 = "normal", "dep", nil
+			if r.Chance(1, 2) {
+				k1 = "dep"
+			}
+		}
+		calls := []Call{{Op: "addnode", Key: "dd", Kind: "lambda"},
+			{Op: "addinput", To: "dd", From: from, In: k1, Fields: []string{"A"}},
+			{Op: "addinput", To: "dd", From: from, In: k2, Fields: f2}}
+		if r.Chance(1, 2) {
+			calls[1], calls[2] = calls[2], calls[1]
+		}
+		if k1 == "nodirect" && k2 == "nodirect" {
+			calls = append(calls, Call{Op: "addinput", To: "dd", From: any(), In: "dep"})
+		}
+		p := r.Range(0, firstCompile(c.Calls))
+		for j := len(calls) - 1; j >= 0; j-- {
+			c.Calls = insertAt(c.Calls, p, calls[j])
+		}
+	case "field-dup-in-call":
+		insInput(Call{Op: "addinput", To: withEnd(keys)[r.Intn(n+1)], From: any(), In: "normal", Fields: []string{"A", "A"}})
 	case "branch-unknown-end":
 		ins(Call{Op: "addbranch", From: []string{any(), any(), "start"}[r.Intn(3)], Ends: []string{"nope", []string{"end", keys[0]}[r.Intn(2)]}})
 	case "branch-one":
